@@ -14,6 +14,20 @@ chk("C01", "exploration",
     "Bounded-exhaustive exploration: every grammar of the stated alphabet up to N nodes x every input up to L x 4 generation flag sets is built by the real front-end/builder, run on the working tree's runtime and compared with an independent reference PEG interpreter (success, consumed prefix, exact value).",
     E1NOTE, "bounded exhaustive enumeration of grammars x inputs x flag sets against a reference interpreter (explicit-state exploration of the real code)", "4.C01")
 
+
+T_ENUM = "bounded exhaustive enumeration of grammars x inputs x option/flag sets, each execution of the real generated parser checked against a reference interpreter (explicit-state exploration of the implementation)"
+T_DIFF = "bounded exhaustive enumeration of grammars x inputs, differential between two real builds plus reference interpreter"
+chk("C02", "exploration", "Every block invocation (id, kind, line:col:offset, text, label values, order; also on abandoned alternatives) of every enumerated grammar/input/predicate script is compared with the reference interpreter's expected log; with Memoize each observed invocation must be one the reference makes.", E1NOTE, T_ENUM, "4.C02")
+chk("C05", "exploration", "Every state/globalStore snapshot taken by every block of every enumerated grammar with #{} blocks and failure points is compared with a reference that threads an immutable store; pool discipline monitored.", E1NOTE, T_ENUM, "4.C05")
+chk("C06", "exploration", "All 8 combinations of Memoize/Debug/Statistics on every enumerated grammar/input must reproduce the default-option result; Memoize work bounds checked; disagreements are classified against an exact model of the (node, offset) memo table.", E1NOTE, T_DIFF, "4.C06")
+chk("C09", "exploration", "Unoptimized vs -optimize-grammar build (real vs real) and both vs the reference on every enumerated multi-rule grammar, entrypoint set and input: same success, prefix, action invocations and flat values.", E1NOTE, T_DIFF, "4.C09")
+chk("C10", "exploration", "parser(X) vs parser(X + -optimize-parser), real vs real, over the union of the other families: same value, error list, panics and block log; state machinery present iff a #{} block exists.", E1NOTE, T_DIFF, "4.C10")
+chk("C11", "exploration", "Every fault script (error / panic(error) / panic(string) per block, <=3 faulting) x Recover x filename on every enumerated skeleton: complete error list (text, order, dedupe, types, Inner identity), value and panic propagation compared with the reference.", E1NOTE, T_ENUM, "4.C11")
+chk("C12", "exploration", "For every non-matching input of every enumerated block-free grammar the complete 'no match' error (farthest position, sorted de-duplicated expected set with inverted entries and EOF) is compared with the one derived from the reference's terminal-attempt list.", E1NOTE, T_ENUM, "4.C12")
+chk("C15", "exploration", "All classes of <=K items x ^ x i against all 128 Basic Latin runes (+ non-ASCII, invalid byte, EOF): table parser vs general parser (real vs real) and both vs reference class semantics.", E1NOTE, T_DIFF, "4.C15")
+chk("C16", "exploration", "Every budget n in 1..c+1 for every enumerated grammar (incl. non-terminating ones), input and option set: returns, evaluates <= n expressions, reports the budget error iff exhausted, otherwise equals the unbounded run.", E1NOTE + " Tick cap stands in for 'does not return'.", "bounded exhaustive enumeration of grammars x inputs x option sets x all budgets on the real runtime", "4.C16")
+chk("C17", "exploration", "All byte strings up to length L over 10 bytes covering every malformed-UTF-8 shape x enumerated grammars x AllowInvalidUTF8: values/offsets exact, set of 'invalid encoding' error positions equals the set of invalid bytes advanced onto (independent RFC 3629 decoder).", E1NOTE, T_ENUM, "4.C17")
+
 ALL = [f"C{i:02d}" for i in range(1, 21)]
 na = [dict(property_id=p, reason="check not built yet in this revision (planned in DESIGN.md section 4)") for p in ALL if p not in checks]
 hook_commits = subprocess.run(['git','-C','/repo','log','--format=%H','--grep=^verif hook'],capture_output=True,text=True).stdout.split()
